@@ -264,7 +264,7 @@ Init ==
     /\ diag = <<>>
     /\ clean = FALSE
     /\ snap = Hdr.state.fs
-    /\ dmg = FALSE
+    /\ dmg = ("dmg" \in DOMAIN Hdr /\ Hdr.dmg)      \* a file may begin with the continuation of an execution (see ResetStep)
     /\ ghost = [d \in D |-> <<>>]
     /\ sha = Hdr.state.sha
     /\ pviol = <<>>
